@@ -149,6 +149,59 @@ func runProdHostCall(text string, o Opts, fn string, arg int) (r prodResult) {
 	return r
 }
 
+// runProdTwoInstances compiles text once and initialises the program twice
+// (two module instances A and B that share every function code); peer(name)
+// gives each instance the other one's global; the host then calls A's fn(arg).
+func runProdTwoInstances(text string, o Opts, fn string, arg int) (r prodResult) {
+	h := newHost()
+	defer func() {
+		if p := recover(); p != nil {
+			r.Panic = fmt.Sprint(p)
+		}
+		r.Probes = h.probes
+		r.Trace = h.trace
+	}()
+	var inst [2]starlark.StringDict
+	mkPre := func(self int) starlark.StringDict {
+		pre := starlark.StringDict{}
+		for k, v := range h.pre {
+			pre[k] = v
+		}
+		pre["peer"] = starlark.NewBuiltin("peer", func(_ *starlark.Thread, _ *starlark.Builtin, args starlark.Tuple, _ []starlark.Tuple) (starlark.Value, error) {
+			name, _ := starlark.AsString(args[0])
+			v := inst[1-self][name]
+			if v == nil {
+				return nil, fmt.Errorf("peer: no %s", name)
+			}
+			return v, nil
+		})
+		return pre
+	}
+	_, prog, err := starlark.SourceProgramOptions(fileOptions(o), "p.star", text, func(name string) bool { return name == "peer" || h.pre.Has(name) })
+	if err == nil {
+		for i := 0; i < 2 && err == nil; i++ {
+			inst[i], err = prog.Init(h.th, mkPre(i))
+		}
+	}
+	if err == nil {
+		th := &starlark.Thread{Name: "c09-two-instances"}
+		th.SetMaxExecutionSteps(2_000_000)
+		_, err = starlark.Call(th, inst[0][fn], starlark.Tuple{starlark.MakeInt(arg)}, nil)
+	}
+	switch e := err.(type) {
+	case nil:
+	case syntax.Error:
+		r.Static, r.Parser, r.Line, r.Col, r.Msg = true, true, int(e.Pos.Line), int(e.Pos.Col), e.Msg
+	case resolve.ErrorList:
+		r.Static, r.Line, r.Col, r.Msg = true, int(e[0].Pos.Line), int(e[0].Pos.Col), e[0].Msg
+	case resolve.Error:
+		r.Static, r.Line, r.Col, r.Msg = true, int(e.Pos.Line), int(e.Pos.Col), e.Msg
+	default:
+		r.Runtime = err.Error()
+	}
+	return r
+}
+
 // ---------------------------------------------------------------------------
 // judging one (program, options) pair
 
@@ -660,7 +713,7 @@ func replay(c *fw.Ctx, raw json.RawMessage) []fw.Viol {
 		}
 		return nil
 	}
-	if cs.Part == "recursion" {
+	if cs.Part == "recursion" || cs.Part == "recursion2" {
 		fs = checkGraph(*cs.Graph, optsFromBits(cs.Opts).Recursion, nil)
 	} else {
 		tree, where := cs.program()
@@ -678,7 +731,7 @@ func init() {
 	fw.Register(&fw.Prop{
 		ID:    "C09",
 		Level: "exploration",
-		Rule: "lists: every parameter list of length <= 4 over {required, optional, *args, bare *, **kwargs, duplicate names} in a def and a lambda, every argument list of length <= 4 over {positional, two keyword names, keyword with a nested keyword call, positional nested call, *, **} alone and after a warm-up call; 13 option-sensitive programs x 64 option vectors x 7 API entry points; call graphs entered from module top level and by the host on an empty stack; static: every base program (probe(); load; global; a chain of containers from {def+call, for, if-arm, else-arm, while} around a leaf block that uses every expression and simple-statement form; " +
+		Rule: "lists: every parameter list of length <= 4 over {required, optional, *args, bare *, **kwargs, duplicate names} in a def and a lambda, every argument list of length <= 4 over {positional, two keyword names, keyword with a nested keyword call, positional nested call, *, **} alone and after a warm-up call; 13 option-sensitive programs x 64 option vectors x 7 API entry points; call graphs entered from module top level, by the host on an empty stack, and with their second-closure edges leading into a second instance of the same Program (initialised twice); static: every base program (probe(); load; global; a chain of containers from {def+call, for, if-arm, else-arm, while} around a leaf block that uses every expression and simple-statement form; " +
 			"quick: all 6 chains of length <=1 with every plant, then the 25 chains of length 2 with statement plants only; thorough: all 31 chains of length <=2 with every plant, then the 125 chains of length 3) " +
 			"x {unmodified; each of 69 statement plants inserted at every index of every block; each of 39 expression plants wrapped as (PLANT, X)[1] around every r-value expression node X} x all 64 FileOptions vectors; " +
 			"plants are rule-breaking constructs (undefined name, break/continue/return/load out of place, if/for/while at top level, while, set, rebinding by assignment/def/load/for/augmented/tuple, bad parameter lists, bad argument lists, 256 arguments, compound or non-assignable targets) and legal look-alikes (255 arguments, keyword-only forms, forward references); " +
